@@ -592,6 +592,17 @@ class Engine:
         if z3.is_false(cond):
             return False
         p = self.path
+        if self.prune and is_light(cond):
+            # decide before forking: an infeasible branch would cost a full re-execution of the path prefix
+            if not p.feasible_with(cond):
+                p.assume(z3.Not(cond), check=False)
+                return False
+            if not p.feasible_with(z3.Not(cond)):
+                p.assume(cond, check=False)
+                return True
+            c = p.choose(2, label)
+            p.assume(cond if c == 0 else z3.Not(cond), check=False)
+            return c == 0
         c = p.choose(2, label)
         if c == 0:
             p.assume(cond)
